@@ -938,11 +938,14 @@ struct Runner {
         default: break;
       }
     }
-    if ((io.kind == V_MOVE_ASSIGN || io.kind == V_CTOR_MOVE || io.kind == V_CTOR_FROM_VEC) && srcHeap && w->type->elemHooks && wpre.size) {
+    if ((io.kind == V_MOVE_ASSIGN || io.kind == V_CTOR_MOVE || io.kind == V_CTOR_FROM_VEC) && srcHeap && wpre.size) {
       watchTransfer = true;
       G.watchLo = (uintptr_t)wpre.data; G.watchHi = G.watchLo + wpre.size * w->type->elemSize;
     }
-    if (io.kind == V_SWAP && srcHeap && dstHeap && t.elemHooks && (pre.size || wpre.size)) {
+    // swap2 between two heap-backed vectors of the same allocator and size_type exchanges the buffers as well
+    bool swap2Exchange = io.kind == V_SWAP2 && srcHeap && dstHeap && t.flavour != FL_FIXED && w->type->flavour != FL_FIXED &&
+                         t.allocDomain == w->type->allocDomain && t.sizeTypeId == w->type->sizeTypeId && !expectThrow;
+    if ((io.kind == V_SWAP || swap2Exchange) && srcHeap && dstHeap && (pre.size || wpre.size)) {
       // both buffers are handed over; watch the larger one
       watchTransfer = true;
       const VecObs &big = pre.size >= wpre.size ? pre : wpre;
@@ -1226,10 +1229,12 @@ struct Runner {
         }
       }
       if (!G.viol.set() && !threw && watchTransfer) {
-        const void *expectData = io.kind == V_SWAP ? (pre.size >= wpre.size ? (const void *)nullptr : wpre.data) : wpre.data;
-        if (io.kind == V_SWAP) {
+        const void *expectData = (io.kind == V_SWAP || io.kind == V_SWAP2) ? (const void *)nullptr : wpre.data;
+        if (io.kind == V_SWAP || io.kind == V_SWAP2) {
           if (post.data != wpre.data || wpost.data != pre.data)
             G.violate(VK_CAPACITY, P(7), "swap of two heap-backed vectors did not hand over the buffers (element addresses changed)");
+          else if (G.opAllocCalls || G.opReallocCalls || G.opDeallocCalls)
+            G.violate(VK_CAPACITY, P(7), "swap of two heap-backed vectors called the allocator (" + G.allocLog + ") instead of only handing over the buffers");
         } else if (post.data != expectData) {
           G.violate(VK_CAPACITY, P(7), std::string(vec_op_name(io.kind)) + " from a heap-backed vector did not hand over its buffer (element addresses changed)");
         }
